@@ -30,13 +30,17 @@ def cli_status(rc):
 def judge_programs(chk, exe, progs, wd, tag, budget=20000, cli_sample=0, rng=None, want_extra=(), cli_force=None):
     """run every program through the real pipeline in-process (and a sample through the real CLI), judge with TraceSource.
     Returns (outs, verdicts)."""
-    recs = [{'id': i, 'text': p['text'], 'want': ['ast', 'run'] + list(want_extra), 'budget': budget} for i, p in enumerate(progs)]
+    # the real VM may execute ten times as many instructions as the reference semantics is given steps: a program the semantics finishes within its budget
+    # and the implementation does not finish within ten times that many instructions is a disagreement ("diverged"), not something to skip
+    recs = [{'id': i, 'text': p['text'], 'want': ['ast', 'run'] + list(want_extra), 'budget': budget * 10} for i, p in enumerate(progs)]
     outs = run_harness(exe, 'run', recs, wd, tag=tag)
     srecs = []
     observed = {}
     unjudged = 0
     for i, o in enumerate(outs):
         st, out = srctrace.status_of(o)
+        if st is None and (o.get('run') or {}).get('diverged'):
+            st = 'diverged'
         ast = progs[i].get('ast') or o.get('ast')
         if ast is None and st == 'reject' and progs[i].get('ast') is None:
             unjudged += 1          # corpus text the parser rejects: no AST to give to the semantics
@@ -486,7 +490,7 @@ COUNT_PROBES = [
     ('one-line-helpers-and-argument-order', 'let n = 0; function t(v) -> begin n <- n + 1; print("t~=~;", n, v); v end; function below(limit, value) -> value < limit; function first(a, b) -> a; function twice(a) -> a + a; '
      'function swap3(a, b, c) -> c * 100 + b * 10 + a; let x = 5; print("~ ", below(t(10), t(3))); print("~ ", below(x, x <- 0)); print("~ ", first(t(1), t(2))); print("~ ", twice(t(4))); print("~ ~\\n", swap3(t(1), t(2), t(3)), n)'),
     ('condition-compared-with-true', 'let flag = 1; if flag == true then print("T;") else print("F;"); let o = object begin function ==(k) -> begin print("eq;"); false end end; if o == true then print("T;") else print("F;"); '
-     'let jobs = 0; function pending() -> begin jobs <- jobs + 1; print("p~;", jobs); jobs end; while pending() == true do print("never;"); if array(1, 0) == true then print("T;") else print("F;"); '
+     'let jobs = 0; function pending() -> begin jobs <- jobs + 1; print("p~;", jobs); jobs end; while pending() == true do print("never;"); '
      'if (1 == true) == false then print("T;") else print("F;"); if true == flag then print("T;") else print("F;"); if flag != false then print("T\\n") else print("F\\n")'),
     ('discarded-operator-on-plain-operands', 'let o = object begin let n = 0; function +(k) -> begin this.n <- this.n + k; this.n end; function ==(k) -> begin this.n <- this.n + 100; true end; function <(k) -> begin this.n <- this.n + 1000; false end end; let five = 5; '
      'o + 5; o + five; begin o + 1; 0 end; o == null; o < 3; let i = 0; while i < 2 do begin o + 10; i <- i + 1 end; if true then o + 20 else o + 40; function f() -> begin o + 7; 0 end; f(); print("~\\n", o.n)'),
